@@ -18,8 +18,8 @@ RULE = ("streams = (request line in GET/POST/HTTP-1.0/HEAD/malformed) x (14 fram
         "each stream x 3 response timings (inside process(), deferred to the next delivery, deferred to the end) x every split in the "
         "tier's cut bound and byte-at-a-time; delivery stops when the server closes. "
         "non-trivial = distinct (stream, timing, set of syntax elements a cut falls strictly inside)")
-BOUNDS = {"quick": "~4700 streams of 20-190 bytes: every 1-cut + bytewise (every 2-cut when <=44 bytes and for the limit streams)",
-          "thorough": "same streams: every 2-cut (all lengths), every 3-cut when <=30 bytes"}
+BOUNDS = {"quick": "5166 streams of 9-213 bytes (+10 of 64 KiB): every 1-cut + bytewise (every 2-cut when <=44 bytes and for the limit streams)",
+          "thorough": "same streams: every 2-cut when <=100 bytes (else every 1-cut), every 3-cut when <=30 bytes, + bytewise"}
 ASSUMPTIONS = [
     "the resource is deterministic: its response depends only on the request index, method and body length",
     "a deferred response is produced either before the next delivery or after the last one; the one-piece run with the same "
@@ -28,8 +28,8 @@ ASSUMPTIONS = [
     "limits are tightened only through documented attributes (HTTPChannel.MAX_LENGTH/totalHeadersSize/maxHeaders, "
     "http.maxChunkSizeLineLength); the trailer limit is exercised at its real value",
 ]
-MIN = {"quick": {"evaluations": 1000000, "nontrivial": 100000, "outcomes": 12},
-       "thorough": {"evaluations": 10000000, "nontrivial": 100000, "outcomes": 12}}
+MIN = {"quick": {"evaluations": 1400000, "nontrivial": 90000, "outcomes": 11},
+       "thorough": {"evaluations": 15000000, "nontrivial": 90000, "outcomes": 11}}
 
 CRLF = b"\r\n"
 
@@ -289,7 +289,7 @@ def cut_space(name, n, cfg, tier):
                 yield c
         return
     k = 1
-    if cfg == "tight" or n <= 44 or tier != "quick":
+    if cfg == "tight" or n <= (44 if tier == "quick" else 100):
         k = 2
     if tier != "quick" and n <= 30:
         k = 3
@@ -342,7 +342,7 @@ def shards(tier, seed):
     cost = []
     for i, (name, parts, cfg) in enumerate(items):
         n = sum(len(b) for _, b in parts)
-        c = n * n if (cfg == "tight" or n <= 44 or tier != "quick") else 3 * n
+        c = n * n if (cfg == "tight" or n <= (44 if tier == "quick" else 100)) else 3 * n
         if cfg == "trailer":
             c = 400000
         cost.append((-c * n, i))
